@@ -589,6 +589,10 @@ class StateMachine:
             if self.__should_engage:
                 self.__start = now
                 self.__engaged = True
+                # the machine (re)starts its clock: a state that was running
+                # while the machine was stopped is entered afresh on it
+                if self.__state is not None:
+                    self.__state.ran = False
             elif self.__default_state is None:
                 return
 
